@@ -282,6 +282,22 @@ fn main() {
       "b.scoped_lock(Forged, |y| *y += *x); //~ERR",
       "*x += 1; if true { std::process::exit(0); }")
 
+route("C14", "read_hold_cloned_out_of_collection_guard", ["E0277", "E0599"], """
+use happylock::rwlock::RwLockReadRef;
+fn main() {
+    let c = LockCollection::new((RwLock::new(1), RwLock::new(2)));
+    let g = c.read(ThreadKey::get().unwrap());
+    @@
+    let key = LockCollection::<(RwLock<i32>, RwLock<i32>)>::unlock_read(g);
+    if c.try_lock(key).is_err() {
+        println!("WITNESS: the key came back while a cloned read hold is still alive");
+        std::process::exit(1);
+    }
+}
+""",
+      "let kept = <RwLockReadRef<'_, _, _> as Clone>::clone(&g.0); //~ERR",
+      "let kept: i32 = *g.0;")
+
 route("C14", "forged_key_boxed", ["E0277"], """
 fn main() {
     let a = Mutex::new(0);
@@ -509,6 +525,27 @@ fn main() {
 """,
       "c.lock(key) //~ERR",
       "let v = *c.lock(key).0; v")
+
+for aname, setup, acc in [
+    ("boxed_child", "let c = BoxedLockCollection::new((Mutex::new(5),));", "c.child()"),
+    ("boxed_as_ref", "let c = BoxedLockCollection::new(vec![Mutex::new(5)]);", "AsRef::<[Mutex<i32>]>::as_ref(&c)"),
+    ("boxed_iter", "let c = BoxedLockCollection::new(vec![Mutex::new(5)]);", "c.iter()"),
+    ("retrying_child", "let c = RetryingLockCollection::new((Mutex::new(5),));", "c.child()"),
+    ("retrying_iter", "let c = RetryingLockCollection::new(vec![Mutex::new(5)]);", "c.iter()"),
+    ("ref_child", "let d = (Mutex::new(5),); let c = RefLockCollection::new(&d);", "c.child()"),
+]:
+    route("C15", "accessor_outlives_collection_" + aname, ["E0597", "E0505", "E0515", "E0716"], """
+fn main() {
+    let key = ThreadKey::get().unwrap();
+    let r = {
+        %s
+        @@
+    };
+    let _ = r;
+}
+""" % setup,
+          acc + " //~ERR",
+          "let _ = " + acc + "; 5")
 
 # D3: known finding - the closure argument's lifetime is the borrow of the lock itself
 SCOPED = [
@@ -789,6 +826,15 @@ NEWS = [
     ("retrying_new_mut_ref_of_boxed_refs", "let mut inner = BoxedLockCollection::try_new([&a]).unwrap(); let c = RetryingLockCollection::new((&mut inner, Mutex::new(3)));", "let mut inner = BoxedLockCollection::new([Mutex::new(1)]); let c = RetryingLockCollection::new((&mut inner, Mutex::new(3)));"),
     ("owned_from_iter_refs", "let c: OwnedLockCollection<Vec<&Mutex<i32>>> = vec![&a, &a].into_iter().collect();", "let c: OwnedLockCollection<Vec<Mutex<i32>>> = vec![Mutex::new(1), Mutex::new(2)].into_iter().collect();"),
 ]
+route("C07", "owned_member_listed_next_to_owner", ["E0599", "E0277"], """
+fn main() {
+    let owned = OwnedLockCollection::new([Mutex::new(1), Mutex::new(2)]);
+    @@
+}
+""",
+      "let member = owned.iter().nth(1).unwrap(); let c = BoxedLockCollection::try_new((&owned, member)); if c.is_some() { println!(\"WITNESS: a lock reachable twice (through its owned collection and directly) was accepted\"); std::process::exit(1); } //~ERR",
+      "let c = BoxedLockCollection::try_new((&owned, &owned)); assert!(c.is_none());")
+
 for name, bad, twin in NEWS:
     route("C07", "unchecked_ctor_" + name, ["E0277", "E0599"], """
 fn main() {
@@ -897,6 +943,34 @@ struct ProbeOwned<T>(PhantomData<T>);
 trait FallbackOwned { fn is_owned(&self) -> bool { false } }
 impl<T> FallbackOwned for ProbeOwned<T> {}
 impl<T: happylock::lockable::OwnedLockable> ProbeOwned<T> { fn is_owned(&self) -> bool { true } }
+struct ProbeClone<T>(PhantomData<T>);
+trait FallbackClone { fn is_clone(&self) -> bool { false } }
+impl<T> FallbackClone for ProbeClone<T> {}
+impl<T: Clone> ProbeClone<T> { fn is_clone(&self) -> bool { true } }
+struct ProbeDefault<T>(PhantomData<T>);
+trait FallbackDefault { fn is_default(&self) -> bool { false } }
+impl<T> FallbackDefault for ProbeDefault<T> {}
+impl<T: Default> ProbeDefault<T> { fn is_default(&self) -> bool { true } }
+/// raw locks whose guards may be sent (like parking_lot with `send_guard`, or `spin`)
+struct SendRawMutex(parking_lot::RawMutex);
+unsafe impl lock_api::RawMutex for SendRawMutex {
+    const INIT: Self = SendRawMutex(<parking_lot::RawMutex as lock_api::RawMutex>::INIT);
+    type GuardMarker = lock_api::GuardSend;
+    fn lock(&self) { self.0.lock() }
+    fn try_lock(&self) -> bool { self.0.try_lock() }
+    unsafe fn unlock(&self) { self.0.unlock() }
+}
+struct SendRawRwLock(parking_lot::RawRwLock);
+unsafe impl lock_api::RawRwLock for SendRawRwLock {
+    const INIT: Self = SendRawRwLock(<parking_lot::RawRwLock as lock_api::RawRwLock>::INIT);
+    type GuardMarker = lock_api::GuardSend;
+    fn lock_shared(&self) { self.0.lock_shared() }
+    fn try_lock_shared(&self) -> bool { self.0.try_lock_shared() }
+    unsafe fn unlock_shared(&self) { self.0.unlock_shared() }
+    fn lock_exclusive(&self) { self.0.lock_exclusive() }
+    fn try_lock_exclusive(&self) -> bool { self.0.try_lock_exclusive() }
+    unsafe fn unlock_exclusive(&self) { self.0.unlock_exclusive() }
+}
 struct ProbeKey<T>(PhantomData<T>);
 trait FallbackKey { fn is_key(&self) -> bool { false } }
 impl<T> FallbackKey for ProbeKey<T> {}
@@ -951,6 +1025,28 @@ fn main() {
         lines.append('    println!("OWNED|%s|true|{}", ProbeOwned::<%s>(PhantomData).is_owned());' % (t, t))
     for t in owned_no:
         lines.append('    println!("OWNED|%s|false|{}", ProbeOwned::<%s>(PhantomData).is_owned());' % (t, t))
+    MG = "happylock::mutex::MutexGuard<'static, i32, parking_lot::RawMutex>"
+    MR = "happylock::mutex::MutexRef<'static, i32, parking_lot::RawMutex>"
+    RR = "happylock::rwlock::RwLockReadRef<'static, i32, parking_lot::RawRwLock>"
+    WR = "happylock::rwlock::RwLockWriteRef<'static, i32, parking_lot::RawRwLock>"
+    RG = "happylock::rwlock::RwLockReadGuard<'static, i32, parking_lot::RawRwLock>"
+    WG = "happylock::rwlock::RwLockWriteGuard<'static, i32, parking_lot::RawRwLock>"
+    LG = C + "LockGuard<(%s, %s)>" % (MR, RR)
+    PG = "happylock::poisonable::PoisonGuard<'static, %s>" % MR
+    PRf = "happylock::poisonable::PoisonRef<'static, %s>" % RR
+    # nothing that stands for a key or a live hold may be duplicated or conjured up
+    for t in ["happylock::ThreadKey", MG, MR, RR, WR, RG, WG, LG, PG, PRf]:
+        lines.append('    println!("CLONE|%s|false|{}", ProbeClone::<%s>(PhantomData).is_clone());' % (t, t))
+    for t in ["happylock::ThreadKey", MG, RG, WG, LG, PG]:
+        lines.append('    println!("DEFAULT|%s|false|{}", ProbeDefault::<%s>(PhantomData).is_default());' % (t, t))
+    # a guard that carries the thread's key must never be Send, whatever the raw lock allows
+    for t in ["happylock::mutex::MutexGuard<'static, i32, SendRawMutex>",
+              "happylock::rwlock::RwLockReadGuard<'static, i32, SendRawRwLock>",
+              "happylock::rwlock::RwLockWriteGuard<'static, i32, SendRawRwLock>",
+              C + "LockGuard<(happylock::mutex::MutexRef<'static, i32, SendRawMutex>,)>",
+              "happylock::poisonable::PoisonGuard<'static, happylock::mutex::MutexRef<'static, i32, SendRawMutex>>",
+              "happylock::ThreadKey"]:
+        lines.append('    println!("KEYSEND|%s|false|{}", ProbeSend::<%s>(PhantomData).is_send());' % (t, t))
     for t in key_yes:
         lines.append('    println!("KEY|%s|true|{}", ProbeKey::<%s>(PhantomData).is_key());' % (t, t))
     for t in key_no:
